@@ -247,6 +247,10 @@ func newLikeIndexCmp(filterValue string, isLike bool, isCaseInsensitive bool) (*
 }
 
 func (m *indexLikeMatcher) Match(val client.NormalValue) (bool, error) {
+	if val.IsNil() {
+		// a missing value is not like any pattern, not even the empty one
+		return !m.isLike, nil
+	}
 	strVal, ok := val.String()
 	if !ok {
 		if strOptVal, ok := val.NillableString(); ok {
